@@ -357,6 +357,9 @@ def run(tier: str) -> int:
     # the repository's own test-suite as a trace source (harness/suitetrace.py)
     import suitetrace
     common.with_engine(o, "suite", lambda: suitetrace.extend(o, tier, PID))
+    # node_to_html / node_to_text / node_handler_fn (spec/Render.tla, harness/render.py): DRIFT only
+    import render
+    common.with_engine(o, "render", lambda: render.extend(o, tier, PID))
     return o.finish()
 
 
@@ -365,6 +368,9 @@ def replay(path: str) -> int:
     if v.get("case", {}).get("engine") == "suite":
         import suitetrace
         return suitetrace.replay(path)
+    if v.get("case", {}).get("engine") == "render":
+        import render
+        return render.replay(path)
     c = v["case"]
     o = Outcome(PID, "quick")
     o.known = {}
